@@ -105,6 +105,26 @@ Theorem x_copy_bytes_uspace_ok : forall fuel nbytes rpos wpos ans,
   x_copy_bytes_uspace fuel nbytes rpos wpos ans = copy_bytes_uspace fuel nbytes rpos wpos 0 ans.
 Proof. intros. unfold x_copy_bytes_uspace. rewrite x_copy_bytes_uspace_loop_ok. apply u_app_nil. Qed.
 
+(* the byte buffer the translated function allocates holds every read the translated loop issues: no `buf[..next]` is
+   out of range, so the fall-back cannot panic on a slice (a panic inside a pool job is not an error anyone hears of:
+   the pool respawns the thread and the dispatcher sees Ok) *)
+From XcpProofs Require Import UspaceProofs.
+Theorem x_range_buffer_holds_every_read : forall fuel nbytes off ans,
+  reads_fit (x_copy_range_uspace_buf_len nbytes off) (u_trace (x_copy_range_uspace fuel nbytes off ans)).
+Proof.
+  intros. rewrite x_copy_range_uspace_ok. apply (reads_fit_mono nbytes); [unfold x_copy_range_uspace_buf_len; lia|].
+  apply copy_range_uspace_reads_fit.
+Qed.
+Theorem x_bytes_buffer_holds_every_read : forall fuel nbytes rpos wpos ans,
+  reads_fit (x_copy_bytes_uspace_buf_len nbytes) (u_trace (x_copy_bytes_uspace fuel nbytes rpos wpos ans)).
+Proof.
+  intros. rewrite x_copy_bytes_uspace_ok. apply (reads_fit_mono nbytes); [unfold x_copy_bytes_uspace_buf_len; lia|].
+  apply copy_bytes_uspace_reads_fit.
+Qed.
+Theorem x_uspace_buffer_slices :
+  x_copy_range_uspace_buf_slices = ["next"; "rlen"]%string /\ x_copy_bytes_uspace_buf_slices = ["next"; "len"]%string.
+Proof. split; reflexivity. Qed.
+
 (* the block fallback reads and writes at explicit offsets (pread/pwrite): concurrent block jobs of one file
    share the two descriptors, so nothing may go through their cursors *)
 Theorem x_positional_io_ok : x_read_bytes_steps = [50] /\ x_write_bytes_steps = [51].
